@@ -1,7 +1,10 @@
 //! C13 (node level): the quote-history check of a REAL SwarmDriver (cmd.rs, QuoteVerification ->
-//! verify_peer_quote). Scenarios are sequences of quotes of two peers (TLC-generated, or seeded random over a
-//! wider value table); each quote is handed to the real handler and the retained quote / issue record of the
-//! peer is logged before and after (hook H8). Judged by specs/quote/QuoteHistoryTrace.tla.
+//! verify_peer_quote). Scenarios are sequences of quotes of up to three peers (TLC-generated, crafted, or seeded
+//! random over a wider value table). Consecutive steps flagged `j` are handed to the real handler in ONE
+//! QuoteVerification command (batches of up to 4 entries, any mix of peers); a `mark` step makes the node consider
+//! the peer bad first (three BadQuoting reports through the real RecordNodeIssue handler, aged by hook H10). The
+//! retained quote / issue record of every peer of a command is logged before and after it (hook H8).
+//! Judged by specs/quote/QuoteHistoryTrace.tla.
 #[path = "../nodeworld.rs"]
 #[allow(dead_code)]
 mod nodeworld;
@@ -9,6 +12,7 @@ use nodeworld::*;
 
 use ant_evm::{PaymentQuote, QuotingMetrics, RewardsAddress};
 use ant_networking::verif_hooks::LocalSwarmCmd;
+use ant_networking::NodeIssue;
 use libp2p::PeerId;
 use rand::{rngs::StdRng, Rng, SeedableRng};
 use serde_json::{json, Value};
@@ -43,14 +47,37 @@ async fn run() {
     let mut t = Trace::create(&out);
     let mut scns: Vec<Value> = arg("--scenarios").map(|p| read_ndjson(&p)).unwrap_or_default();
     let mut rng = StdRng::seed_from_u64(seed.wrapping_mul(131).wrapping_add(9));
+    // crafted batches (the shapes a reviewer named): (A inconsistent, B consistent), (A, A newer / A lower), an already-bad
+    // peer in front of an inconsistent one, four entries of two peers
+    let crafted = arg("--crafted").map(|s| s != "0").unwrap_or(false);
+    if crafted {
+        let st = |p: &str, ts: u64, live: u64, rpc: u64, j: bool| json!({"p": p, "q": {"ts": ts, "live": live, "rpc": rpc}, "j": j, "mark": false});
+        let mark = |p: &str| json!({"p": p, "q": {"ts": -1, "live": -1, "rpc": -1}, "j": false, "mark": true});
+        scns.push(json!([st("A", 100, 50, 1, false), st("A", 120, 40, 1, false), st("B", 100, 50, 0, true), st("A", 140, 70, 1, false), st("B", 120, 40, 0, true)]));
+        scns.push(json!([st("A", 100, 50, 1, false), st("B", 100, 50, 1, false), st("B", 120, 60, 1, false), st("A", 120, 40, 1, true)]));
+        scns.push(json!([st("A", 100, 50, 0, false), st("A", 120, 60, 0, true), st("A", 140, 55, 0, false)]));
+        scns.push(json!([st("A", 100, 50, 0, false), st("A", 120, 40, 0, true)]));
+        scns.push(json!([st("A", 120, 50, 2, false), st("A", 100, 50, 2, true), st("A", 140, 60, 1, true), st("A", 140, 60, 2, true)]));
+        scns.push(json!([st("C", 100, 50, 0, false), mark("C"), st("C", 120, 40, 0, false), st("B", 100, 50, 0, true), st("C", 140, 90, 0, false), st("B", 120, 40, 0, true)]));
+        scns.push(json!([mark("C"), st("B", 100, 70, 1, false), st("C", 100, 70, 1, false), st("B", 120, 70, 0, true), st("A", 100, 70, 1, true)]));
+        scns.push(json!([st("A", 100, 50, 1, false), st("B", 100, 50, 1, true), st("A", 120, 40, 1, true), st("B", 120, 60, 0, true)]));
+        scns.push(json!([st("A", 100, 50, 1, false), st("B", 100, 50, 1, false), st("A", 120, 40, 1, false), st("B", 120, 60, 0, true), st("A", 140, 45, 1, true), st("B", 140, 70, 1, true)]));
+    }
     for _ in 0..random {
-        // wider table than the model-checked one: close timestamps (inside the 10 s margin), equal timestamps, big jumps
+        // wider table than the model-checked one: close timestamps (inside the 10 s margin), equal timestamps, big jumps;
+        // two in five of the scenarios come as batches, some with a peer the node considers bad
         let n = rng.gen_range(2..9);
+        let batched = rng.gen_bool(0.4);
+        let mark_at = if batched && rng.gen_bool(0.4) { rng.gen_range(0..n) } else { usize::MAX };
         let mut steps = vec![];
-        for _ in 0..n {
+        for i in 0..n {
+            if i == mark_at {
+                steps.push(json!({"p": "C", "q": {"ts": -1, "live": -1, "rpc": -1}, "j": false, "mark": true}));
+            }
             let ts = [100u64, 100, 103, 109, 111, 120, 140, 400][rng.gen_range(0..8)];
             let live = [0u64, 50, 55, 61, 70, 90, 200, 360][rng.gen_range(0..8)];
-            steps.push(json!({"p": if rng.gen_bool(0.7) { "A" } else { "B" }, "q": {"ts": ts, "live": live, "rpc": rng.gen_range(0..4)}}));
+            let p = if !batched { if rng.gen_bool(0.7) { "A" } else { "B" } } else { ["A", "A", "A", "B", "B", "C"][rng.gen_range(0..6)] };
+            steps.push(json!({"p": p, "q": {"ts": ts, "live": live, "rpc": rng.gen_range(0..4)}, "j": batched && rng.gen_bool(0.6), "mark": false}));
         }
         scns.push(json!(steps));
     }
@@ -60,35 +87,99 @@ async fn run() {
     let mut n = NodeH::new(&mut rng, dir.clone(), stub.network());
     let t0 = SystemTime::now() - Duration::from_secs(5000);
     let mut runs = 0;
+    let (mut cmds, mut batches, mut marks) = (0u64, 0u64, 0u64);
     for scn in scns {
         runs += 1;
-        let a = PeerId::from(keypair(&mut rng).public());
-        let b = PeerId::from(keypair(&mut rng).public());
-        t.emit(json!({"ev":"Reset","run":runs}));
+        let ids = [("A", PeerId::from(keypair(&mut rng).public())), ("B", PeerId::from(keypair(&mut rng).public())), ("C", PeerId::from(keypair(&mut rng).public()))];
+        let peer_of = |p: &str| ids.iter().find(|(name, _)| *name == p).map(|(_, id)| *id).unwrap_or(ids[0].1);
+        t.emit(json!({"ev":"Reset","run":runs,"scn":scn}));
+        // group the steps into commands: a step flagged j joins the command of the step before it (at most 4 entries)
+        enum Grp<'a> { Mark(&'a str), Cmd(Vec<&'a Value>) }
+        let mut groups: Vec<Grp> = vec![];
         for s in scn.as_array().expect("steps") {
             let p = s["p"].as_str().unwrap_or("A");
-            let peer = if p == "A" { a } else { b };
-            let q = quote(t0, s["q"]["ts"].as_u64().unwrap_or(0), s["q"]["live"].as_u64().unwrap_or(0), s["q"]["rpc"].as_u64().unwrap_or(0));
-            let (before, _i0, _b0) = n.driver.verif_quote_history(&peer);
-            let res = n.driver.verif_handle_local_cmd(LocalSwarmCmd::QuoteVerification { quotes: vec![(peer, q)] });
-            let (after, issues, bad) = n.driver.verif_quote_history(&peer);
-            t.emit(json!({"ev":"Quote","p":p,"q":s["q"],"before":proj(t0,&before),"after":proj(t0,&after),"issue":issues > 0,"issues":issues,"bad":bad,"ok":res.is_ok()}));
+            if s["mark"].as_bool().unwrap_or(false) {
+                groups.push(Grp::Mark(p));
+                continue;
+            }
+            if s["j"].as_bool().unwrap_or(false) {
+                if let Some(Grp::Cmd(v)) = groups.last_mut() {
+                    if v.len() < 4 {
+                        v.push(s);
+                        continue;
+                    }
+                }
+            }
+            groups.push(Grp::Cmd(vec![s]));
+        }
+        for g in groups {
+            match g {
+                Grp::Mark(p) => {
+                    // three reports of the same kind, each more than 10 s after the one before (time passes by ageing: hook H10)
+                    let peer = peer_of(p);
+                    for _ in 0..3 {
+                        let _ = n.driver.verif_handle_local_cmd(LocalSwarmCmd::RecordNodeIssue { peer_id: peer, issue: NodeIssue::BadQuoting });
+                        n.driver.verif_age_node_issues(&peer, 11);
+                    }
+                    n.serve_pending();
+                    n.outbox.clear();
+                    let (kept, issues, bad) = n.driver.verif_quote_history(&peer);
+                    marks += 1;
+                    t.emit(json!({"ev":"MarkBad","p":p,"issues":issues,"bad":bad,"kept":proj(t0,&kept)}));
+                }
+                Grp::Cmd(steps) => {
+                    cmds += 1;
+                    let entries: Vec<(&str, PeerId, PaymentQuote)> = steps
+                        .iter()
+                        .map(|s| {
+                            let p = s["p"].as_str().unwrap_or("A");
+                            (p, peer_of(p), quote(t0, s["q"]["ts"].as_u64().unwrap_or(0), s["q"]["live"].as_u64().unwrap_or(0), s["q"]["rpc"].as_u64().unwrap_or(0)))
+                        })
+                        .collect();
+                    let befores: Vec<_> = entries.iter().map(|(_, peer, _)| n.driver.verif_quote_history(peer)).collect();
+                    let res = n.driver.verif_handle_local_cmd(LocalSwarmCmd::QuoteVerification { quotes: entries.iter().map(|(_, peer, q)| (*peer, q.clone())).collect() });
+                    let afters: Vec<_> = entries.iter().map(|(_, peer, _)| n.driver.verif_quote_history(peer)).collect();
+                    if entries.len() == 1 {
+                        let (before, _i0, bad0) = &befores[0];
+                        let (after, issues, bad) = &afters[0];
+                        t.emit(json!({"ev":"Quote","p":entries[0].0,"q":steps[0]["q"],"before":proj(t0,before),"after":proj(t0,after),"issue":*issues > 0,"issues":issues,"bad0":bad0,"bad":bad,"ok":res.is_ok()}));
+                    } else {
+                        batches += 1;
+                        let ents: Vec<Value> = (0..entries.len())
+                            .map(|i| json!({"p":entries[i].0,"q":steps[i]["q"],"before":proj(t0,&befores[i].0),"after":proj(t0,&afters[i].0),"issue":afters[i].1 > 0,"issues":afters[i].1,"bad0":befores[i].2,"bad":afters[i].2}))
+                            .collect();
+                        t.emit(json!({"ev":"Batch","entries":ents,"ok":res.is_ok()}));
+                    }
+                }
+            }
         }
         n.serve_pending();
+        n.outbox.clear();
     }
     // quotes CREATED by the node (ant-node create_quote_for_storecost: the node's own key signs): they must verify
     // only for the node itself and only as long as every signed field is untouched
-    let nq: usize = arg("--node-quotes").and_then(|s| s.parse().ok()).unwrap_or(40);
+    let nq: usize = arg("--node-quotes").and_then(|s| s.parse().ok()).unwrap_or(60);
     let other = PeerId::from(keypair(&mut rng).public());
     for i in 0..nq {
         use ant_node::verif_hooks::VerifNode;
         use ant_protocol::NetworkAddress;
         let mut x = [0u8; 32];
         rng.fill(&mut x);
-        let addr = match i % 3 {
-            0 => NetworkAddress::from_chunk_address(ant_protocol::storage::ChunkAddress::new(XorName(x))),
-            1 => NetworkAddress::from_transaction_address(ant_protocol::storage::TransactionAddress::new(XorName(x))),
-            _ => NetworkAddress::from_record_key(&libp2p::kad::RecordKey::new(&x)),
+        // every address kind; `name` is the content name the DRIVER derives from the parts of the address (the 32 bytes
+        // themselves for chunk / transaction, XorName::from_content(meta ++ owner key) for a register, of the owner key for
+        // a scratchpad); raw record keys and peer ids have no name (the quote then carries the all-zero name)
+        let owner = bls_key(rng.gen::<u32>() as u64).public_key();
+        let (kind, addr, name) = match i % 6 {
+            0 => ("chunk", NetworkAddress::from_chunk_address(ant_protocol::storage::ChunkAddress::new(XorName(x))), Some(XorName(x))),
+            1 => ("transaction", NetworkAddress::from_transaction_address(ant_protocol::storage::TransactionAddress::new(XorName(x))), Some(XorName(x))),
+            2 => ("recordkey", NetworkAddress::from_record_key(&libp2p::kad::RecordKey::new(&x)), None),
+            3 => {
+                let mut b = x.to_vec();
+                b.extend_from_slice(&owner.to_bytes());
+                ("register", NetworkAddress::from_register_address(ant_registers::RegisterAddress::new(XorName(x), owner)), Some(XorName::from_content(&b)))
+            }
+            4 => ("scratchpad", NetworkAddress::ScratchpadAddress(ant_protocol::storage::ScratchpadAddress::new(owner)), Some(XorName::from_content(&owner.to_bytes()))),
+            _ => ("peer", NetworkAddress::from_peer(PeerId::from(keypair(&mut rng).public())), None),
         };
         let m = QuotingMetrics { close_records_stored: rng.gen_range(0..5000), max_records: 16384, received_payment_count: rng.gen_range(0..50), live_time: rng.gen_range(0..100000),
                                  network_density: if rng.gen_bool(0.5) { Some([rng.gen::<u8>(); 32]) } else { None }, network_size: if rng.gen_bool(0.5) { Some(rng.gen_range(1..100000)) } else { None } };
@@ -106,16 +197,16 @@ async fn run() {
                 let mut a = q.clone(); a.rewards_address = RewardsAddress::from([1u8; 20]); alts.push(a);
                 let altered: Vec<bool> = alts.iter().map(|a| a.check_is_signed_by_claimed_peer(n.peer)).collect();
                 t.emit(json!({"ev":"NodeQuote","res":"ok","own":q.check_is_signed_by_claimed_peer(n.peer),"other":q.check_is_signed_by_claimed_peer(other),
-                    "altered":altered,"content_ok":q.content == addr.as_xorname().unwrap_or_default(),"metrics_ok":q.quoting_metrics == m,"rewards_ok":q.rewards_address == rewards,
+                    "altered":altered,"kind":kind,"named":name.is_some(),"content_ok":q.content == name.unwrap_or_default(),"metrics_ok":q.quoting_metrics == m,"rewards_ok":q.rewards_address == rewards,
                     "fresh":!q.has_expired()}));
             }
-            Err(e) => t.emit(json!({"ev":"NodeQuote","res":e,"own":false,"other":false,"altered":[],"content_ok":false,"metrics_ok":false,"rewards_ok":false,"fresh":false})),
+            Err(e) => t.emit(json!({"ev":"NodeQuote","res":e,"kind":kind,"named":name.is_some(),"own":false,"other":false,"altered":[],"content_ok":false,"metrics_ok":false,"rewards_ok":false,"fresh":false})),
         }
     }
     drop(n);
     let _ = std::fs::remove_dir_all(&dir);
     let lines = t.finish();
-    println!("{}", json!({"events": lines, "runs": runs, "seed": seed}));
+    println!("{}", json!({"events": lines, "runs": runs, "commands": cmds, "batches": batches, "marks": marks, "seed": seed}));
 }
 
 fn main() {
